@@ -235,6 +235,95 @@ example : joined keyPair
                { node := "m".toList, serviceID := "a-1".toList, serviceName := "a".toList }]) "a".toList =
     [{ node := "n".toList, serviceID := "a-1".toList, serviceName := "a".toList }] := by decide
 
+/-! ### failing catalog lookups -/
+
+theorem mem_insertDesc (x : Str) (l : List Str) (y : Str) : y ∈ insertDesc x l ↔ y = x ∨ y ∈ l := by
+  induction l with
+  | nil => simp [insertDesc]
+  | cons z zs ih =>
+    unfold insertDesc
+    split
+    · simp
+    · simp only [List.mem_cons, ih]
+      constructor
+      · rintro (h | h | h)
+        · exact .inr (.inl h)
+        · exact .inl h
+        · exact .inr (.inr h)
+      · rintro (h | h | h)
+        · exact .inr (.inl h)
+        · exact .inl h
+        · exact .inr (.inr h)
+
+theorem mem_sortDesc (l : List Str) (y : Str) : y ∈ sortDesc l ↔ y ∈ l := by
+  unfold sortDesc
+  induction l with
+  | nil => simp
+  | cons x xs ih => rw [List.foldr_cons, mem_insertDesc, ih]; simp
+
+/-- without failures the faulty round is the ordinary one -/
+theorem watchOnceF_no_faults {κ : Type} [BEq κ] (key : Str → Str → κ) (cmds : Instance → List Str) (pfx : Str)
+    (st : List Str) (strict : Bool) (checks : List Check) (catalog : Str → List Instance) :
+    watchOnceF (fun _ => false) key cmds pfx st strict checks catalog =
+      watchOnce key cmds pfx st strict checks catalog := rfl
+
+/-- Whatever lookups fail, every line of the emitted text is a command of a catalog entry that the join selected
+in *this* round, for a service whose lookup succeeded. -/
+theorem fault_lines_from_joined {κ : Type} [BEq κ] (fails : Str → Bool) (key : Str → Str → κ)
+    (cmds : Instance → List Str) (pfx : Str) (st : List Str) (strict : Bool) (checks : List Check)
+    (catalog : Str → List Instance) (l : Str)
+    (h : l ∈ watchOnceF fails key cmds pfx st strict checks catalog) :
+    ∃ name i, fails name = false ∧
+      i ∈ joined key (passingServices (checksWithTagPrefix pfx checks) st strict) catalog name ∧ l ∈ cmds i := by
+  unfold watchOnceF makeConfigLinesF at h
+  rw [mem_sortDesc, List.mem_flatMap] at h
+  obtain ⟨name, _, h2⟩ := h
+  rw [List.mem_flatMap] at h2
+  obtain ⟨i, hi, hl⟩ := h2
+  unfold joinedF at hi
+  by_cases hf : fails name = true
+  · simp [hf] at hi
+  · have hf' : fails name = false := by simpa using hf
+    rw [hf'] at hi
+    exact ⟨name, i, hf', hi, hl⟩
+
+/-- a failed lookup only removes lines -/
+theorem fault_only_removes {κ : Type} [BEq κ] (fails : Str → Bool) (key : Str → Str → κ)
+    (cmds : Instance → List Str) (pfx : Str) (st : List Str) (strict : Bool) (checks : List Check)
+    (catalog : Str → List Instance) (l : Str)
+    (h : l ∈ watchOnceF fails key cmds pfx st strict checks catalog) :
+    l ∈ watchOnce key cmds pfx st strict checks catalog := by
+  unfold watchOnceF makeConfigLinesF at h
+  unfold watchOnce makeConfigLines
+  rw [mem_sortDesc, List.mem_flatMap] at h ⊢
+  obtain ⟨name, h1, h2⟩ := h
+  refine ⟨name, h1, ?_⟩
+  rw [List.mem_flatMap] at h2 ⊢
+  obtain ⟨i, hi, hl⟩ := h2
+  unfold joinedF at hi
+  by_cases hf : fails name = true
+  · simp [hf] at hi
+  · have hf' : fails name = false := by simpa using hf
+    rw [hf'] at hi
+    exact ⟨i, hi, hl⟩
+
+/-- **A failed catalog lookup never admits an unhealthy instance** (model level, any `routecmd.build`): every line
+of the text emitted in a round — whatever lookups fail in it — is a command of a catalog entry that has a service
+check and is `HealthyAt` in the registry state *this* text was built from (for tagged instances, hypothesis `hT`
+as in `instance_routed_iff`). -/
+theorem fault_never_admits_unhealthy_lines (fails : Str → Bool) (cmds : Instance → List Str) (pfx : Str)
+    (st : List Str) (strict : Bool) (checks : List Check) (catalog : Str → List Instance)
+    (hT : ∀ name, ∀ i ∈ catalog name, ∀ c ∈ checks, c.node = i.node → c.serviceID = i.serviceID →
+      hasTagPrefix pfx c = true)
+    (l : Str) (h : l ∈ watchOnceF fails keyPair cmds pfx st strict checks catalog) :
+    ∃ name i, i ∈ catalog name ∧ l ∈ cmds i ∧
+      (∃ c ∈ checks, c.serviceName = name ∧ c.node = i.node ∧ c.serviceID = i.serviceID ∧ isServiceCheck c = true) ∧
+      HealthyAt checks st strict i.node i.serviceID := by
+  obtain ⟨name, i, _, hj, hl⟩ := fault_lines_from_joined fails keyPair cmds pfx st strict checks catalog l h
+  have hcat := ((joined_iff keyPair instance_key_injective _ catalog name i).1 hj).2.1
+  obtain ⟨_, _, h3, h4⟩ := (instance_routed_iff pfx checks st strict catalog name i (hT name i hcat)).1 hj
+  exact ⟨name, i, hcat, hl, h3, h4⟩
+
 /-! ### `watchBackend` -/
 
 section machine
